@@ -1,1 +1,421 @@
-(* C04 stub: to be written *)
+(* C04 / C13(n-D part): wavenumber-keyed state matrices and the n-D / gridded shift back-ends.
+   Mirrors epgpy/shift.py: unique_1d, shiftnd, shiftmerge, shiftprune, round, get_shift_method,
+   S._apply (padding of the shift to kdim, kvalue/tvalue scaling), G, C;
+   statematrix.py: _setup_coords / setup_coords, k, t, ktvalue.
+
+   Layout.  A (batched) state is  keys : list key  (one FLATTENED key per row: the concatenation over the
+   batch entries of the kdim-vector of that row, exactly the slices np.unique(axis=-2) compares) and one
+   list of triples (F+,F-,Z) per batch entry, in array order.  The index maps of the shifts depend on the keys
+   only; amplitudes are relocated per batch entry; prune masks look at all batch entries.
+   numpy scatter  a[idx] = v  (last write wins)  and  np.add.at(a, idx, v)  on a zero array are
+   modelled index-wise ([assign_fn], [addat_fn]) as CONVENTIONS.md prescribes. *)
+From Coq Require Import List ZArith Lia Bool QArith Qcanon Qround.
+From EPG Require Import Scalar State.
+Import ListNotations.
+
+(* ------------------------------------------------------------------ scatter *)
+Section Scatter.
+Variable S : ScalOps.
+
+Fixpoint ksum (l : list S) : S :=
+  match l with [] => k0 | x :: t => (x + ksum t)%K end.
+
+(* np.add.at(zeros, idx, src)[j] *)
+Definition addat_fn (ps : list (nat * S)) (j : nat) : S :=
+  ksum (map (fun p => if Nat.eqb (fst p) j then snd p else k0) ps).
+
+(* zeros[idx] = src : the last write to a cell wins *)
+Fixpoint lastmatch {B} (ps : list (nat * B)) (j : nat) : option B :=
+  match ps with
+  | [] => None
+  | (a, v) :: t => match lastmatch t j with
+                   | Some x => Some x
+                   | None => if Nat.eqb a j then Some v else None
+                   end
+  end.
+Definition assign_fn (ps : list (nat * S)) (j : nat) : S :=
+  match lastmatch ps j with Some v => v | None => k0 end.
+
+(* pairs (target cell, value) with the entries whose target was cropped away removed *)
+Fixpoint opairs {B} (idx : list (option nat)) (vs : list B) : list (nat * B) :=
+  match idx, vs with
+  | Some a :: it, v :: vt => (a, v) :: opairs it vt
+  | None :: it, _ :: vt => opairs it vt
+  | _, _ => []
+  end.
+End Scatter.
+Arguments ksum {S}. Arguments addat_fn {S}. Arguments assign_fn {S}.
+
+(* boolean-mask indexing a[mask] *)
+Fixpoint select {B} (mask : list bool) (l : list B) : list B :=
+  match mask, l with
+  | true :: m, x :: t => x :: select m t
+  | false :: m, _ :: t => select m t
+  | _, _ => []
+  end.
+
+(* ------------------------------------------------------------------ unique_1d *)
+Section Unique.
+Variable A : Type.
+Variable le : A -> A -> bool.     (* lexicographic <= of the rows *)
+Variable eqb : A -> A -> bool.
+Variable dflt : A.
+
+(* xp.lexsort(values.T[::-1]): stable argsort, column 0 most significant.
+   Stable insertion sort of the row indices: [ins i l] puts i before the first j with key i <= key j;
+   indices are inserted from the last to the first, so equal keys keep their original order. *)
+Fixpoint ins (vals : list A) (i : nat) (l : list nat) : list nat :=
+  match l with
+  | [] => [i]
+  | j :: t => if le (nth i vals dflt) (nth j vals dflt) then i :: l else j :: ins vals i t
+  end.
+Definition argsort (vals : list A) : list nat := fold_right (ins vals) [] (seq 0 (length vals)).
+
+(* mask = r_[True, any(diff(sorted) != 0)], unique = sorted[mask], cums = cumsum(mask) - 1, fused in one pass:
+   [p] = previous row (= unique[c-1]), [c] = number of unique rows so far *)
+Fixpoint dd (p : A) (c : nat) (l : list A) : list A * list nat :=
+  match l with
+  | [] => ([], [])
+  | x :: t => if eqb p x then let '(u, cs) := dd p c t in (u, (c - 1)%nat :: cs)
+              else let '(u, cs) := dd x (Datatypes.S c) t in (x :: u, c :: cs)
+  end.
+Definition dedup (sorted : list A) : list A * list nat :=
+  match sorted with
+  | [] => ([], [])
+  | x :: t => let '(u, cs) := dd x 1 t in (x :: u, 0%nat :: cs)
+  end.
+
+(* returns (unique, inverse): inverse[indices] = cumsum(mask) - 1 *)
+Definition unique_1d (vals : list A) : list A * list nat :=
+  let perm := argsort vals in
+  let sorted := map (fun i => nth i vals dflt) perm in
+  let '(u, cs) := dedup sorted in
+  (u, tab (length vals) (fun i => match lastmatch (combine perm cs) i with Some c => c | None => 0%nat end)).
+End Unique.
+Arguments ins {A}. Arguments argsort {A}. Arguments dd {A}. Arguments dedup {A}. Arguments unique_1d {A}.
+
+(* ------------------------------------------------------------------ integer keys *)
+Definition key := list Z.
+
+Fixpoint lex_cmp (a b : key) : comparison :=
+  match a, b with
+  | [], [] => Eq
+  | [], _ => Lt
+  | _, [] => Gt
+  | x :: a', y :: b' => match Z.compare x y with Eq => lex_cmp a' b' | c => c end
+  end.
+Definition key_le (a b : key) : bool := match lex_cmp a b with Gt => false | _ => true end.
+Definition key_eqb (a b : key) : bool := match lex_cmp a b with Eq => true | _ => false end.
+
+Fixpoint vadd (a b : key) : key :=
+  match a, b with x :: a', y :: b' => (x + y)%Z :: vadd a' b' | _, _ => [] end.
+Definition vneg (a : key) : key := map Z.opp a.
+Definition vsub (a b : key) : key := vadd a (vneg b).
+
+Definition unique_keys (vals : list key) := unique_1d key_le key_eqb [] vals.
+
+(* split a flattened key into its per-batch kdim-vectors *)
+Fixpoint chunks (fuel kdim : nat) (l : key) : list key :=
+  match fuel with
+  | O => []
+  | Datatypes.S f => match l with [] => [] | _ => firstn kdim l :: chunks f kdim (skipn kdim l) end
+  end.
+(* any over batch entries of all(|k| <= nmax over the kdim components) *)
+Definition within (kdim : nat) (nmax : Z) (k : key) : bool :=
+  existsb (fun v => forallb (fun x => (Z.abs x <=? nmax)%Z) v) (chunks (length k) (Nat.max kdim 1) k).
+
+(* mapidx = -ones; mapidx[keep] = arange(count) *)
+Fixpoint mapidx (c : nat) (keep : list bool) : list (option nat) :=
+  match keep with
+  | [] => []
+  | true :: t => Some c :: mapidx (Datatypes.S c) t
+  | false :: t => None :: mapidx c t
+  end.
+
+(* ------------------------------------------------------------------ shiftnd *)
+Section ShiftND.
+Variable S : ScalOps.
+Notation triple := (triple S).
+
+Record plan : Type := mkPlan { pk : list key; pL : list (option nat); pT : list (option nat) }.
+
+(* index bookkeeping of shiftnd (depends on the wavenumbers only) *)
+Definition shiftnd_plan (keys : list key) (dk : key) (kdim : nat) (nmax : option Z) : plan :=
+  let n1 := length keys in
+  let kL := keys in
+  let k1T := map (fun k => vadd k dk) kL in
+  let k2T := map (fun k => vsub k dk) kL in
+  let '(k2, idx) := unique_keys (kL ++ k1T ++ k2T) in
+  let idxL := firstn n1 idx in
+  let idxT := firstn n1 (skipn n1 idx) in
+  match nmax with
+  | None => mkPlan k2 (map Some idxL) (map Some idxT)
+  | Some m =>
+      let keep := map (within kdim m) k2 in
+      if forallb (fun b => b) keep then mkPlan k2 (map Some idxL) (map Some idxT)
+      else let mi := mapidx 0 keep in
+           mkPlan (select keep k2) (map (fun i => nth i mi None) idxL) (map (fun i => nth i mi None) idxT)
+  end.
+
+(* sm2[idxL,2] = sm[:,2]; sm2[idxT,0] = sm[:,0]; sm2[:,1] = conj(sm2[::-1,0]) for one batch entry *)
+Definition relocate (p : plan) (amps : list triple) : list triple :=
+  let n2 := length (pk p) in
+  let F2 := assign_fn (opairs (pT p) (map (@fp S) amps)) in
+  let Z2 := assign_fn (opairs (pL p) (map (@fz S) amps)) in
+  tab n2 (fun j => mk3 (F2 j) (kconj (F2 (n2 - 1 - j)%nat)) (Z2 j)).
+
+(* ~all(isclose(sm2, 0, atol=tol)) over the batch entries and the 3 components; [negl] = the tolerance test *)
+Definition nonzero_mask (negl : triple -> bool) (n2 : nat) (outs : list (list triple)) : list bool :=
+  tab n2 (fun j => existsb (fun o => negb (negl (nth j o t0))) outs).
+Definition keep_centre (m : list bool) : list bool :=
+  let c := ((length m - 1) / 2)%nat in tab (length m) (fun j => Nat.eqb j c || nth j m false).
+
+(* shiftnd(states, indices, shift, nmax=, prune=, tol=) : (keys, one amplitude list per batch entry) *)
+Definition shiftnd (negl : triple -> bool) (keys : list key) (amps : list (list triple)) (dk : key)
+    (kdim : nat) (nmax : option Z) (prune : bool) : list key * list (list triple) :=
+  let p := shiftnd_plan keys dk kdim nmax in
+  let outs := map (relocate p) amps in
+  if prune then
+    let m := keep_centre (nonzero_mask negl (length (pk p)) outs) in
+    (select m (pk p), map (select m) outs)
+  else (pk p, outs).
+
+(* un-batched, no crop, no pruning: rows (key, triple) *)
+Definition shiftnd1 (rows : list (key * triple)) (dk : key) : list (key * triple) :=
+  let p := shiftnd_plan (map fst rows) dk 1 None in
+  combine (pk p) (relocate p (map snd rows)).
+
+(* position-space synthesis with a character chi of the wavenumber group *)
+Definition synthP (chi : key -> S) (rows : list (key * triple)) : S :=
+  ksum (map (fun r => (chi (fst r) * fp (snd r))%K) rows).
+Definition synthM (chi : key -> S) (rows : list (key * triple)) : S :=
+  ksum (map (fun r => (chi (fst r) * fm (snd r))%K) rows).
+Definition synthZ (chi : key -> S) (rows : list (key * triple)) : S :=
+  ksum (map (fun r => (chi (fst r) * fz (snd r))%K) rows).
+
+(* function view: amplitude stored at wavenumber k (zero when absent) *)
+Fixpoint lookup (rows : list (key * triple)) (k : key) : triple :=
+  match rows with
+  | [] => t0
+  | (k', x) :: t => if key_eqb k' k then x else lookup t k
+  end.
+
+(* well-formed n-D state: odd length, antisymmetric coordinates, F-(k) = conj F+(-k), Z(-k) = conj Z(k),
+   in array terms (row n-1-i mirrors row i) *)
+Definition wf_rows (rows : list (key * triple)) : Prop :=
+  let n := length rows in
+  Nat.odd n = true /\
+  forall i, (i < n)%nat ->
+    fst (nth (n - 1 - i) rows ([], t0)) = vneg (fst (nth i rows ([], t0))) /\
+    fm (snd (nth i rows ([], t0))) = kconj (fp (snd (nth (n - 1 - i) rows ([], t0)))) /\
+    fz (snd (nth (n - 1 - i) rows ([], t0))) = kconj (fz (snd (nth i rows ([], t0)))).
+
+Definition triple_is0 (x : triple) : bool := keqb (fp x) k0 && keqb (fm x) k0 && keqb (fz x) k0.
+
+(* canonical content: non-zero rows sorted by wavenumber (insertion sort on the key) *)
+Fixpoint ins_row (r : key * triple) (l : list (key * triple)) : list (key * triple) :=
+  match l with
+  | [] => [r]
+  | r' :: t => if key_le (fst r) (fst r') then r :: l else r' :: ins_row r t
+  end.
+Definition content (rows : list (key * triple)) : list (key * triple) :=
+  fold_right ins_row [] (filter (fun r => negb (triple_is0 (snd r))) rows).
+Fixpoint rows_eqb (a b : list (key * triple)) : bool :=
+  match a, b with
+  | [], [] => true
+  | (k, x) :: a', (k', y) :: b' => key_eqb k k' && teqb x y && rows_eqb a' b'
+  | _, _ => false
+  end.
+
+(* ---- StateMatrix._setup_coords(nstate, kdim): [-n..n] in column 0, zeros elsewhere *)
+Definition setup_coords (n kdim : nat) : list key :=
+  tab (2 * n + 1) (fun i => (Z.of_nat i - Z.of_nat n)%Z :: repeat 0%Z (kdim - 1)).
+(* setup_coords on existing coords: append zero columns *)
+Definition extend_coords (coords : list key) (diff : nat) : list key :=
+  map (fun k => k ++ repeat 0%Z diff) coords.
+(* np.pad(shift, (0, diff)) *)
+Definition pad_shift (dk : key) (diff : nat) : key := dk ++ repeat 0%Z diff.
+
+(* S._apply, "shift-nd" branch for an un-batched state (list of triples of the 1-D layout, coords None or given) *)
+Definition apply_S_nd (negl : triple -> bool) (coords : option (list key)) (amps : list triple) (dk : key)
+    (nmax : option Z) (prune : bool) : list key * list triple :=
+  let kdim := length dk in
+  let n := ((length amps - 1) / 2)%nat in
+  let '(cs, dk') :=
+    match coords with
+    | None => (setup_coords n kdim, dk)
+    | Some c => let cd := length (nth 0 c []) in
+                if (cd <? kdim)%nat then (extend_coords c (kdim - cd), dk)
+                else (c, pad_shift dk (cd - kdim))
+    end in
+  let '(k2, outs) := shiftnd negl cs [amps] dk' (length dk') nmax prune in
+  (k2, nth 0 outs []).
+
+End ShiftND.
+Arguments shiftnd_plan : clear implicits.
+Arguments mkPlan : clear implicits.
+Arguments relocate {S}. Arguments shiftnd {S}. Arguments shiftnd1 {S}.
+Arguments synthP {S}. Arguments synthM {S}. Arguments synthZ {S}. Arguments lookup {S}. Arguments wf_rows {S}.
+Arguments content {S}. Arguments rows_eqb {S}. Arguments triple_is0 {S}. Arguments nonzero_mask {S}.
+Arguments apply_S_nd {S}.
+
+(* ------------------------------------------------------------------ rational wavenumbers: rounding *)
+Definition qhalf : Q := 1 # 2.
+(* np.around / np.rint: round half to even *)
+Definition Qrint (x : Q) : Z :=
+  let f := Qfloor x in
+  let r := (x - inject_Z f)%Q in
+  match Qcompare r qhalf with
+  | Lt => f
+  | Gt => (f + 1)%Z
+  | Eq => if Z.even f then f else (f + 1)%Z
+  end.
+(* np.around(x, decimals=8) = rint(x * 1e8) / 1e8 *)
+Definition ten8 : Q := 100000000 # 1.
+Definition Qaround8 (x : Q) : Q := (inject_Z (Qrint (x * ten8)) / ten8)%Q.
+(* astype(int): truncation towards zero *)
+Definition Qtrunc (x : Q) : Z := if Qle_bool 0 x then Qfloor x else Qceiling x.
+(* shift.round(arr).astype(int) = trunc(arr - 0.5 + (arr > 0)) *)
+Definition Qround_shift (x : Q) : Z :=
+  Qtrunc (x - qhalf + (if Qle_bool x 0 then 0 else 1))%Q.
+
+Definition qvec := list Q.
+Fixpoint qvadd (a b : qvec) : qvec :=
+  match a, b with x :: a', y :: b' => (x + y)%Q :: qvadd a' b' | _, _ => [] end.
+Fixpoint qvsub (a b : qvec) : qvec :=
+  match a, b with x :: a', y :: b' => (x - y)%Q :: qvsub a' b' | _, _ => [] end.
+Fixpoint qvdiv (a b : qvec) : qvec :=
+  match a, b with x :: a', y :: b' => (x / y)%Q :: qvdiv a' b' | _, _ => [] end.
+Fixpoint qvmul (a b : qvec) : qvec :=
+  match a, b with x :: a', y :: b' => (x * y)%Q :: qvmul a' b' | _, _ => [] end.
+Definition qvscale (c : Q) (a : qvec) : qvec := map (fun x => (c * x)%Q) a.
+Fixpoint qvsum (d : nat) (l : list qvec) : qvec :=
+  match l with [] => repeat 0%Q d | x :: t => qvadd x (qvsum d t) end.
+Fixpoint qsum (l : list Q) : Q := match l with [] => 0%Q | x :: t => (x + qsum t)%Q end.
+Definition qvec_eqb (a b : qvec) : bool :=
+  Nat.eqb (length a) (length b) && forallb (fun p => Qeq_bool (fst p) (snd p)) (combine a b).
+
+(* ------------------------------------------------------------------ shiftmerge / shiftprune *)
+Section Merge.
+Variable S : ScalOps.
+Variable wabs : S -> Q.            (* |amplitude| (numpy abs of a complex number) *)
+Notation triple := (triple S).
+
+Record mplan : Type := mkMPlan {
+  mq : list key; mL : list nat; m1T : list nat; m2T : list nat;
+  mkL : list qvec; mk1T : list qvec; mk2T : list qvec }.
+
+(* quantisation to the grid and unique cells; [rnd] = rounding to an integer, [pre] = the 8-decimal clean-up *)
+Definition merge_plan (pre : Q -> Q) (rnd : Q -> Z) (wav : list qvec) (dk grid : qvec) : mplan :=
+  let n1 := length wav in
+  let kL := map (map pre) wav in
+  let k1T := map (fun k => qvadd k dk) kL in
+  let k2T := map (fun k => qvsub k dk) kL in
+  let qL := map (fun p => map rnd (qvdiv (qvscale qhalf (qvsub (fst p) (snd p))) grid)) (combine kL (rev kL)) in
+  let q1T := map (fun k => map rnd (qvdiv k grid)) k1T in
+  let q2T := map vneg (rev q1T) in
+  let '(q2, idx) := unique_keys (qL ++ q1T ++ q2T) in
+  mkMPlan q2 (firstn n1 idx) (firstn n1 (skipn n1 idx)) (skipn (2 * n1) idx) kL k1T k2T.
+
+(* add_at(sm2, idxL, Z); add_at(sm2, idx1T, F+); F- = mirror conjugate *)
+Definition merge_amps (p : mplan) (amps : list triple) : list triple :=
+  let n2 := length (mq p) in
+  let F2 := addat_fn (combine (m1T p) (map (@fp S) amps)) in
+  let Z2 := addat_fn (combine (mL p) (map (@fz S) amps)) in
+  tab n2 (fun j => mk3 (F2 j) (kconj (F2 (n2 - 1 - j)%nat)) (Z2 j)).
+
+(* w = sum over the batch entries of |sm|, per row and component *)
+Definition merge_w (amps : list (list triple)) (i : nat) : Q * Q * Q :=
+  (qsum (map (fun a => wabs (fp (nth i a t0))) amps),
+   qsum (map (fun a => wabs (fm (nth i a t0))) amps),
+   qsum (map (fun a => wabs (fz (nth i a t0))) amps)).
+
+Definition qaddat (ps : list (nat * Q)) (j : nat) : Q :=
+  qsum (map (fun p => if Nat.eqb (fst p) j then snd p else 0%Q) ps).
+Definition qvaddat (d : nat) (ps : list (nat * qvec)) (j : nat) : qvec :=
+  qvsum d (map (fun p => if Nat.eqb (fst p) j then snd p else repeat 0%Q d) ps).
+
+(* amplitude-weighted mean wavenumber of the cell j *)
+Definition merge_k2 (p : mplan) (d : nat) (w : nat -> Q * Q * Q) (nonzero : list bool) (j : nat) : qvec :=
+  let n1 := length (mkL p) in
+  let ws := tab n1 w in
+  let wZ := map (fun x => snd x) ws in
+  let wP := map (fun x => fst (fst x)) ws in
+  let wM := map (fun x => snd (fst x)) ws in
+  let wn := (qaddat (combine (mL p) wZ) j + qaddat (combine (m1T p) wP) j + qaddat (combine (m2T p) wM) j)%Q in
+  let wn' := if nth j nonzero false then wn else 1%Q in
+  let num := qvadd (qvadd (qvaddat d (combine (mL p) (map (fun x => qvscale (snd x) (fst x)) (combine (mkL p) wZ))) j)
+                          (qvaddat d (combine (m1T p) (map (fun x => qvscale (snd x) (fst x)) (combine (mk1T p) wP))) j))
+                   (qvaddat d (combine (m2T p) (map (fun x => qvscale (snd x) (fst x)) (combine (mk2T p) wM))) j) in
+  map (fun x => (x / wn')%Q) num.
+
+Definition shiftmerge (negl : triple -> bool) (wav : list qvec) (amps : list (list triple)) (dk grid : qvec)
+    (prune : bool) : list qvec * list (list triple) :=
+  let p := merge_plan Qaround8 Qrint wav dk grid in
+  let n2 := length (mq p) in
+  let outs := map (merge_amps p) amps in
+  let nz := nonzero_mask negl n2 outs in
+  let k2 := tab n2 (merge_k2 p (length dk) (merge_w amps) nz) in
+  if prune then let m := keep_centre nz in (select m k2, map (select m) outs)
+  else (k2, outs).
+
+(* shiftprune: no 8-decimal clean-up, its own rounding, wavenumbers = cell centres, always pruned;
+   [negl] = (norm <= tol) *)
+Definition shiftprune (negl : triple -> bool) (wav : list qvec) (amps : list (list triple)) (dk grid : qvec)
+    : list qvec * list (list triple) :=
+  let p := merge_plan (fun x => x) Qround_shift wav dk grid in
+  let n2 := length (mq p) in
+  let outs := map (merge_amps p) amps in
+  let nz := nonzero_mask negl n2 outs in
+  let nzs := tab n2 (fun j => nth j nz false && nth (n2 - 1 - j) nz false) in
+  let m := keep_centre nzs in
+  let k2 := map (fun q => qvmul (map inject_Z q) grid) (mq p) in
+  (select m k2, map (select m) outs).
+
+(* S._apply float branches: coords*ktvalue -> shift -> wavenums/ktvalue *)
+Definition ktvalue (kvalue tvalue : Q) (kdim : nat) : qvec :=
+  repeat kvalue (Nat.min kdim 3) ++ (if Nat.eqb kdim 4 then [tvalue] else []).
+Definition apply_S_merge (negl : triple -> bool) (coords : list qvec) (amps : list (list triple)) (dk : qvec)
+    (kvalue tvalue : Q) (grid : qvec) (prune : bool) : list qvec * list (list triple) :=
+  let kt := ktvalue kvalue tvalue (length dk) in
+  let '(k2, outs) := shiftmerge negl (map (fun c => qvmul c kt) coords) amps (qvmul dk kt) grid prune in
+  (map (fun k => qvdiv k kt) k2, outs).
+End Merge.
+Arguments merge_plan : clear implicits.
+Arguments merge_amps {S}. Arguments shiftmerge {S}. Arguments shiftprune {S}. Arguments apply_S_merge {S}.
+Arguments merge_w {S}. Arguments merge_k2 : clear implicits.
+
+(* ------------------------------------------------------------------ dispatch: get_shift_method *)
+Inductive ktype := KPyInt | KArrInt | KArrFloat | KArrOther.
+Inductive ctype := CNone | CInt | CFloat | COther.
+Inductive method := M1d | Mnd | Mmerge | Mprune | Mnone.
+(* [lead] = np.sum(np.shape(k)[:-1]) (0 for a Python int) *)
+Definition get_shift_method (k : ktype) (c : ctype) (lead : nat) : method :=
+  let m :=
+    match c, k with
+    | CNone, KPyInt => M1d
+    | CNone, KArrInt => Mnd
+    | CNone, KArrFloat => Mmerge
+    | CInt, KPyInt => Mnd
+    | CInt, KArrInt => Mnd
+    | CInt, KArrFloat => Mmerge
+    | CFloat, _ => Mmerge
+    | _, _ => Mnone
+    end in
+  match m with Mmerge => if (1 <? lead)%nat then Mprune else Mmerge | _ => m end.
+(* a Python int on a state with coords becomes the vector [k, 0, ..., 0] *)
+Definition int_shift (k : Z) (kdim : nat) : key := k :: repeat 0%Z (kdim - 1).
+
+(* ------------------------------------------------------------------ G and C *)
+(* utils.get_wavenumber(tau, gradient) = 2*pi*gamma * tau * 1e-3 * gradient, gamma_1H = 42.576e3 kHz/T;
+   [twopi] is the value used for 2*pi *)
+Definition gamma_1H : Q := 42576 # 1.
+Definition get_wavenumber (twopi : Q) (tau : Q) (grad : qvec) : qvec :=
+  map (fun g => (twopi * gamma_1H * tau * (1 # 1000) * g)%Q) grad.
+(* C(tau): k = [0, 0, 0, tau] *)
+Definition C_shift (tau : Q) : qvec := [0%Q; 0%Q; 0%Q; tau].
+Definition G_shift (twopi tau : Q) (grad : qvec) : qvec := get_wavenumber twopi tau grad.
+
+(* sm.k = coords[..., :3] * kvalue ; sm.t = coords[..., 3] * tvalue (0 when kdim < 4) *)
+Definition sm_k (kvalue : Q) (coords : list qvec) : list qvec := map (fun c => qvscale kvalue (firstn 3 c)) coords.
+Definition sm_t (tvalue : Q) (coords : list qvec) : list Q := map (fun c => (tvalue * nth 3 c 0)%Q) coords.
